@@ -248,7 +248,7 @@ pub const SEEDS: &[&str] = &[
 
 pub fn run(ctx: &Ctx) {
     ctx.run_cases(&Reader, SEEDS.iter().map(|s| s.to_string()).collect());
-    let n = ctx.n(3_000_000, 30_000_000);
+    let n = ctx.n(3_000_000, 100_000_000);
     ctx.run_prop(&Writer, n);
     ctx.run_prop(&Reader, 3 * n);
 }
